@@ -25,8 +25,8 @@ import (
 // TestClient: C19 = (a) sequential histories, (b) Unlock / Close against the renewer under
 // controlled interleaving, (c) the retry rule.
 func TestClient(t *testing.T) {
-	if p := common.Prop(); p != "C19" && p != "" {
-		t.Fatalf("VERIF_PROP must be C19 (got %q)", p)
+	if p := common.Prop(); p != "C19" && p != "C14" && p != "" {
+		t.Fatalf("VERIF_PROP must be C19 or C14 (got %q)", p)
 	}
 	res := common.NewResult("client")
 	res.Property = "C19"
@@ -35,6 +35,11 @@ func TestClient(t *testing.T) {
 			t.Fatalf("writing the result file: %v", err)
 		}
 	}()
+	if common.Prop() == "C14" {
+		res.Property = "C14"
+		runErrorAfterRetryPart(t, res)
+		return
+	}
 	res.Rule = "(a) histories of one auto-renewing client over a recording in-process transport to the real service + lock server: 1-4 Lock/TryLock with lock timeouts from {5,10,11,12,30,31,40,45,60} s, sizes 1-3, same and different names, advances of 1-200 s or to a renew instant +-1 ns, Unlock at random points, Close, then 3 x the longest timeout of silence; monitors after every operation. (b) programs {Unlock, Close} || renewer goroutine (hold with T=40 s, interval 10 s, one 10 s tick) and Unlock(x) || renewers of x and of an untouched second hold y on the instrumented client: every schedule with at most 2-3 preemptions (thorough: 3-4; depth-first, capped) plus PCT-style random schedules, each in a fresh bubble with a fresh server. (c) every gRPC status code (and a non-status error) x MaxRetries 0-3 x 0-5 scripted failures x 4 methods against a stub transport. distinct = distinct history / (program, schedule) / retry case; non-trivial = (a) a hold that was renewed and an unlock, (b) at least one preemption or the tick placed before the thread finished, (c) at least one scripted failure"
 	rng := common.NewRng(common.Seed())
 	runSequentialPart(t, res, rng.Fork(1))
@@ -393,6 +398,119 @@ func runRetryPart(t *testing.T, res *common.Result) {
 						find("client:retry:wrong-result", fmt.Sprintf("%s should have succeeded (failures %d, MaxRetries %d, %s) but returned ok=%v err=%v", method, fails, M, kc.label, okResp, gotErr))
 					case !succeed && gotErr != kc.err && !errors.Is(gotErr, kc.err):
 						find("client:retry:error-changed", fmt.Sprintf("%s returned %v; required the last transport error (%s) unchanged", method, gotErr, kc.label))
+					}
+				}
+			}
+		}
+	}
+}
+
+
+// ---------------------------------------------------------------- C14: an error condition keeps its code through retries
+
+// stubE answers like stub, but the response that finally gets through carries an application error.
+type stubE struct {
+	stub
+	code pb.ErrorCode
+}
+
+func (s *stubE) perr() *pb.Error { return &pb.Error{Code: s.code, Message: "scripted " + s.code.String()} }
+func (s *stubE) Lock(ctx context.Context, in *pb.LockRequest, _ ...grpc.CallOption) (*pb.LockResponse, error) {
+	if err := s.next(); err != nil {
+		return nil, err
+	}
+	return &pb.LockResponse{Name: in.Name, Error: s.perr()}, nil
+}
+func (s *stubE) TryLock(ctx context.Context, in *pb.TryLockRequest, _ ...grpc.CallOption) (*pb.LockResponse, error) {
+	if err := s.next(); err != nil {
+		return nil, err
+	}
+	return &pb.LockResponse{Name: in.Name, Error: s.perr()}, nil
+}
+func (s *stubE) Unlock(ctx context.Context, in *pb.UnlockRequest, _ ...grpc.CallOption) (*pb.UnlockResponse, error) {
+	if err := s.next(); err != nil {
+		return nil, err
+	}
+	return &pb.UnlockResponse{Name: in.Name, Error: s.perr()}, nil
+}
+func (s *stubE) Renew(ctx context.Context, in *pb.RenewRequest, _ ...grpc.CallOption) (*pb.LockResponse, error) {
+	if err := s.next(); err != nil {
+		return nil, err
+	}
+	return &pb.LockResponse{Name: in.Name, Error: s.perr()}, nil
+}
+
+// runErrorAfterRetryPart: every error code x 4 methods x MaxRetries 1-3 x 0..MaxRetries transient
+// Unavailable failures before the response gets through: the client must return the same exported
+// error value (and no success flag) as when the first attempt gets through.
+func runErrorAfterRetryPart(t *testing.T, res *common.Result) {
+	const prop = "C14"
+	res.Rule = "stub transport: for every ldlm error code x {Lock, TryLock, Unlock, Renew} x MaxRetries 1-3 x k = 0..MaxRetries scripted Unavailable failures, the response that finally gets through carries that error code; the client's (flag, error) must be the one it returns for k = 0 (the error value compared with errors.Is against every exported error of the client package). distinct = (method, code, MaxRetries, k); non-trivial = k > 0"
+	exported := []struct {
+		name string
+		err  error
+	}{{"ErrLockDoesNotExist", client.ErrLockDoesNotExist}, {"ErrInvalidLockKey", client.ErrInvalidLockKey}, {"ErrLockWaitTimeout", client.ErrLockWaitTimeout},
+		{"ErrLockNotLocked", client.ErrLockNotLocked}, {"ErrLockDoesNotExistOrInvalidKey", client.ErrLockDoesNotExistOrInvalidKey},
+		{"ErrInvalidLockSize", client.ErrInvalidLockSize}, {"ErrLockSizeMismatch", client.ErrLockSizeMismatch}}
+	class := func(ok bool, err error) string {
+		c := fmt.Sprintf("flag=%v err=", ok)
+		if err == nil {
+			return c + "nil"
+		}
+		for _, e := range exported {
+			if errors.Is(err, e.err) {
+				return c + e.name
+			}
+		}
+		return c + "other(" + err.Error() + ")"
+	}
+	for code := pb.ErrorCode_Unknown; code <= pb.ErrorCode_InvalidLockSize; code++ {
+		for _, method := range []string{"Lock", "TryLock", "Unlock", "Renew"} {
+			for M := 1; M <= 3; M++ {
+				base := ""
+				for k := 0; k <= M; k++ {
+					var got, pan string
+					synctest.Test(t, func(t *testing.T) {
+						verifrt.Reset(false)
+						s := &stubE{code: code}
+						s.start = time.Now()
+						for i := 0; i < k; i++ {
+							s.script = append(s.script, status.Error(codes.Unavailable, "scripted"))
+						}
+						ctx, cancel := context.WithCancel(context.Background())
+						defer cancel()
+						c := client.VerifNew(ctx, s, true, M)
+						pan = guard(func() {
+							switch method {
+							case "Lock":
+								l, err := c.Lock("x", &client.LockOptions{})
+								got = class(l != nil && l.Locked, err)
+							case "TryLock":
+								l, err := c.TryLock("x", &client.LockOptions{})
+								got = class(l != nil && l.Locked, err)
+							case "Unlock":
+								ok, err := c.Unlock("x", "k")
+								got = class(ok, err)
+							case "Renew":
+								l, err := c.Renew("x", "k", 40)
+								got = class(l != nil && l.Locked, err)
+							}
+						})
+					})
+					res.Eval(fmt.Sprintf("c14|%s|%s|MaxRetries=%d|k=%d", method, code, M, k), k > 0)
+					res.Count("c14:method=" + method)
+					res.Count("c14:code=" + code.String())
+					if pan != "" {
+						got = "panic " + pan
+					}
+					if k == 0 {
+						base = got
+						continue
+					}
+					if got != base {
+						res.Find(common.Finding{Kind: "violation", Property: prop, Signature: "client:code-after-retry:" + method + ":" + code.String(),
+							What:   fmt.Sprintf("%s whose response carries error code %s: after %d transient Unavailable failure(s) and a retry that gets through the client returns %s, but %s when the first attempt gets through; the error condition must keep its exported error value", method, code, k, got, base),
+							Replay: map[string]any{"method": method, "response_error_code": code.String(), "max_retries": M, "unavailable_failures_before_the_response": k, "returned": got, "returned_without_failures": base}})
 					}
 				}
 			}
